@@ -44,6 +44,13 @@ def structured(fam, rng):
     # special-value patterns: every coefficient independently 0, 1, -1 or random (shortcuts keyed on one coefficient)
     for _ in range(60 if n <= 2 else 90):
         out.append([rng.choice([0, 1, Q - 1, rng.randrange(Q), rng.randrange(Q)]) for _ in range(n)])
+    # coefficients that are special in the INTERNAL (Montgomery) representation: R^-1 (limbs [1,0,..]), limb patterns
+    MB = sorted(G.mont_domain_boundary(Q))
+    rinv = pow(1 << 384, -1, Q)
+    for v in [rinv, Q - rinv, 2 * rinv % Q] + MB[:: max(1, len(MB) // 10)]:
+        out.append([v] + [0] * (n - 1))
+        out.append([v] + [rng.randrange(Q) for _ in range(n - 1)])
+        out.append([rng.randrange(Q) for _ in range(n - 1)] + [v])
     if n == 2:
         for a in (0, 1, Q - 1):
             for b in (0, 1, Q - 1):
